@@ -212,7 +212,11 @@ func (m *multi) DeserializeCellBlocks(msg proto.Message, b []byte) (uint32, erro
 	return nread, nil
 }
 
-func (m *multi) returnResults(msg proto.Message, err error) {
+// returnResults dispatches the results of a MultiResponse (or err) to the
+// calls. It returns the first ServerError that came inside the response, if
+// any: the client considers such a connection dead (it is removed from the
+// cache), so the region client must be failed as well.
+func (m *multi) returnResults(msg proto.Message, err error) (serverErr error) {
 	defer freeMulti(m)
 
 	if err != nil {
@@ -222,10 +226,16 @@ func (m *multi) returnResults(msg proto.Message, err error) {
 			}
 			c.ResultChan() <- hrpc.RPCResult{Error: err}
 		}
-		return
+		return nil
 	}
 
 	mr := msg.(*pb.MultiResponse)
+	noteServerError := func(err error) error {
+		if _, ok := err.(ServerError); ok && serverErr == nil {
+			serverErr = err
+		}
+		return err
+	}
 
 	// Here we can assume that everything has been deserialized correctly.
 	// Dispatch results to appropriate calls.
@@ -235,7 +245,7 @@ func (m *multi) returnResults(msg proto.Message, err error) {
 			// fail all the calls for that region.
 			reg := m.regions[i]
 
-			err := exceptionToError(*e.Name, string(e.Value))
+			err := noteServerError(exceptionToError(*e.Name, string(e.Value)))
 			for _, c := range m.calls {
 				if c == nil {
 					continue
@@ -258,7 +268,7 @@ func (m *multi) returnResults(msg proto.Message, err error) {
 
 			if e != nil {
 				c.ResultChan() <- hrpc.RPCResult{
-					Error: exceptionToError(*e.Name, string(e.Value)),
+					Error: noteServerError(exceptionToError(*e.Name, string(e.Value))),
 				}
 				continue
 			}
@@ -276,6 +286,7 @@ func (m *multi) returnResults(msg proto.Message, err error) {
 			c.ResultChan() <- hrpc.RPCResult{Msg: response}
 		}
 	}
+	return serverErr
 }
 
 // add adds the call and returns wether the batch is full.
